@@ -15,7 +15,7 @@ import numpy as np
 from jax.dtypes import result_type
 
 import scico.numpy as snp
-from scico.numpy.util import is_nested
+from scico.numpy.util import is_complex_dtype, is_nested
 from scico.operator import Operator
 from scico.typing import DType, Shape
 
@@ -200,7 +200,8 @@ class CircularConvolve(LinearOperator):
         )
         if bcast_axes:
             H_adj_x = snp.sum(H_adj_x, axis=bcast_axes, keepdims=True)
-        if self.real:
+        if self.real or not is_complex_dtype(self.input_dtype):
+            # the adjoint maps into the (real) input space
             H_adj_x = H_adj_x.real
         return H_adj_x
 
